@@ -54,6 +54,8 @@ type H struct {
 	readers       *readerSet
 	idx           int
 	realClock     bool
+	quiet         bool // race child: refuting observations are only counted
+	allReaders    bool
 }
 
 func vp(p params.VerifyTxn) ledger.VerifyParams {
@@ -78,7 +80,7 @@ func (h *H) Owns(p string) bool { return p == h.Prop }
 // Viol reports a refuting observation owned by property prop
 func (h *H) Viol(prop, kind string, attrs map[string]string, witness interface{}) {
 	h.R.Count("observed."+prop+"."+kind, 1)
-	if !h.Owns(prop) {
+	if !h.Owns(prop) || h.quiet {
 		return
 	}
 	if attrs == nil {
@@ -173,6 +175,10 @@ func (h *H) Close() {
 // Main is the entry point shared by cmd/c01..c07
 func Main(prop string) {
 	fix.Quiet()
+	if vf.ChildMode() == "race" {
+		raceChild(prop)
+		return
+	}
 	r := vf.Start(prop, "exploration")
 	nHist := r.Pick(48, 192)
 	nSteps := r.Pick(80, 300)
@@ -214,6 +220,9 @@ func Main(prop string) {
 		_ = os.RemoveAll(dir)
 	})
 	_ = os.RemoveAll(root) // Finish exits the process; deferred calls would not run
+	if prop == "C02" {
+		raceLeg(r, prop)
+	}
 	setFloors(r, prop)
 	r.Finish(ruleText(prop), assumptions(prop)...)
 }
@@ -287,7 +296,10 @@ func (h *H) Run(nSteps int) {
 	h.views = h.Prop == "C07"
 	h.checkAll("init")
 	// concurrent read-only clients: every history of the C02 run, every fourth one elsewhere
-	if h.Prop == "C02" || h.idx%4 == 1 {
+	if h.allReaders {
+		h.startReaders(2)
+		defer h.stopReaders()
+	} else if h.Prop == "C02" || h.idx%4 == 1 {
 		h.startReaders(2)
 		defer h.stopReaders()
 	}
